@@ -213,6 +213,14 @@ def oracle(case, ctx):
         walk(s, obj, A, (names if s != "A3" else None), [s], 3, None if s == "A3" else inst)
         if discs:
             break
+    if not discs:
+        # a multi-index frame that is a row selection of a bigger panel (one CV fold, a filter):
+        # pandas keeps the unused level values, the panel is the rows that are there
+        extra = [("x%d" % j) if isinstance(inst[0], str) else (max(inst) + 1 + j) for j in range(2)]
+        big = build_mi(np.concatenate([A, A[:1] * 0.5 + 1.0, A[:1] * 2.0 - 3.0], axis=0), names, list(inst) + extra)
+        sub = big[big.index.get_level_values(0).isin(list(inst))]
+        ctx.label("multi_index_row_selection")
+        walk("MI", sub, A, names, ["MI(selection)"], 2, inst)
     ctx.count("paths", n_paths)
     # predicates
     flat = pd.DataFrame(A[:, 0, :])
